@@ -26,6 +26,7 @@ RULE += (
 RULE += (
          'Application exception hierarchies named like builtins, '
          'raised by called code. ')
+RULE += ('Round 10: error_type / error_value noted from every part of a try nested in the handler. ')
 ASSUMPTIONS = ['reference interpreter vf/model.py is trusted',
                'dtml-raise of an unknown type name and dtml-return inside a '
                'dtml-raise message body are not generated (not covered by '
@@ -304,17 +305,89 @@ def strategy():
         syntax=st.sampled_from(['dtml', 'ssi', 'epfs'])))
 
 
+def bound_in_handler_cases():
+    """error_type / error_value are the caught exception's everywhere
+    inside the handler - also in the finally part of a try nested in it
+    while something else is pending there (observed through a call, since
+    the text of that part is discarded with the pending exception)."""
+    inner = {
+        'raises': '<dtml-raise KeyError>inner</dtml-raise>',
+        'returns': '<dtml-return "\'R\'">',
+        'ends': 'fine',
+        'calls-failing': '<dtml-var boom>',
+    }
+    probe = ('<dtml-call "note(error_type, _.str(error_value))">'
+             '<dtml-var error_type>')
+    wraps = {
+        'try-finally': '<dtml-try>%(inner)s<dtml-finally>%(probe)s</dtml-try>',
+        'try-finally-in-try': '<dtml-try><dtml-try>%(inner)s<dtml-finally>'
+                              '%(probe)s</dtml-try><dtml-except KeyError '
+                              'ZeroDivisionError>k<dtml-call "note(\'inner:\' '
+                              '+ error_type, 1)"></dtml-try>%(probe)s',
+        'try-except-else': '<dtml-try>%(inner)s<dtml-except KeyError>'
+                           '<dtml-call "note(\'inner:\' + error_type, '
+                           '_.str(error_value))"><dtml-else>e</dtml-try>'
+                           '%(probe)s',
+        'in-loop': '<dtml-in "(1, 2)"><dtml-try>%(inner)s<dtml-finally>'
+                   '%(probe)s</dtml-try></dtml-in>',
+    }
+    for outer_cls, outer_msg in (('VfB', 'outer'), ('ValueError', 'ov')):
+        for wn, w in sorted(wraps.items()):
+            for iname, itext in sorted(inner.items()):
+                how = 'expr="VfB"' if outer_cls == 'VfB' else outer_cls
+                src = ('<dtml-try><dtml-raise %s>%s</dtml-raise><dtml-except '
+                       '%s>%s|%s</dtml-try>' % (
+                           how, outer_msg, outer_cls,
+                           w % dict(inner=itext, probe=probe), probe))
+                yield dict(bound=True, src=src, outer=[outer_cls, outer_msg],
+                           wrap=wn, inner=iname)
+
+
+def check_bound(case):
+    from DocumentTemplate import HTML
+    from vf.values import EXC
+    notes = []
+
+    def note(t, v):
+        notes.append([t, v])
+        return ''
+
+    def boom():
+        raise ZeroDivisionError('boom')
+    try:
+        HTML(case['src'])(note=note, boom=boom, VfB=EXC['VfB'])
+    except Exception:
+        pass
+    cls, msg = case['outer']
+    bad = [n for n in notes if not n[0].startswith('inner:') and
+           n != [cls, msg]]
+    if bad:
+        return ('handler-bindings', '%r: inside the handler of %s(%r) '
+                'error_type / error_value were seen as %r' % (
+                    case['src'], cls, msg, notes))
+    return None
+
+
 def plan(tier, seed):
     n = 300 if tier == 'quick' else 4000
     shards = [dict(kind='random', seed=seed * 1000 + i, n=n)
               for i in range(12)]
     for i in range(12):
         shards.append(dict(kind='enum', part=i, parts=12))
+    shards.append(dict(kind='bound'))
     return shards
 
 
 def run_shard(shard):
     acc = Acc(ID, sample_every=37)
+    if shard['kind'] == 'bound':
+        for case in bound_in_handler_cases():
+            bad = check_bound(case)
+            acc.case(case, True, klass='bindings-inside-handler',
+                     distinct_by_construction=True)
+            if bad:
+                acc.fail(bad[0], case, bad[1])
+        return acc.result()
     if shard['kind'] == 'enum':
         for idx, c in enumerate(enum_cases()):
             if idx % shard['parts'] != shard['part']:
@@ -353,6 +426,8 @@ def run_shard(shard):
 
 
 def replay(case):
+    if isinstance(case, dict) and case.get('bound'):
+        return check_bound(case)
     if 'enum' in case and 'ast' not in case:
         case = dict(ast=enum_ast(case['enum']), syntax=case['syntax'],
                     style=[0])
